@@ -59,6 +59,8 @@ def is_k(e):
 
 def field(e, name, idx=None):
     t = e[0]
+    if t == "K":
+        return e        # scalar newtype constant (bitflags): the only field is the value
     if t == "A":
         for (n, v) in e[3]:
             if n == name:
@@ -198,6 +200,12 @@ def map_expr(e, f):
         r = ("WITH", map_expr(e[1], f), e[2], map_expr(e[3], f))
     elif t == "GATE":
         r = ("GATE", map_expr(e[1], f), tuple((l, map_expr(v, f)) for (l, v) in e[2]))
+    elif t == "F":
+        nb = map_expr(e[1], f)
+        r = e if nb is e[1] or nb == e[1] else field(nb, e[2], int(e[2]) if e[2].isdigit() else None)
+    elif t == "V":
+        nb = map_expr(e[1], f)
+        r = e if nb == e[1] else downcast(nb, e[2])
     else:
         r = tuple(map_expr(x, f) if is_expr(x) else x for x in e)
     return f(r)
@@ -214,6 +222,15 @@ def strip_casts(e):
             return x[3][0]
         if x[0] == "C" and not x[3] and x[1].endswith("::default"):
             return ("KS", "default", "")
+        return x
+    return map_expr(e, f)
+
+
+def strip_upd(e):
+    """Forget 'was passed by &mut to a call' wrappers."""
+    def f(x):
+        if x[0] in ("UPD", "UPDF"):
+            return x[1]
         return x
     return map_expr(e, f)
 
@@ -307,6 +324,7 @@ class VF:
         self._inprog = set()
         self._mut = None
         self._headers = None
+        self._loops_made = False
         self.render_body = None
         self._stack2 = {}
 
@@ -318,12 +336,34 @@ class VF:
             return ("FN", c["fn"])
         if "v" in c:
             return ("K", c["v"], c["ty"], c.get("def"))
+        if "pv" in c:
+            # reference to a small plain-data constant: references are erased, keep the value
+            return ("K", c["pv"], c.get("pty", c["ty"]), None if c.get("promoted") else c.get("def"))
         return ("KS", c.get("s", ""), c["ty"])
 
     def operand(self, op, bb, idx):
         if op[0] == "k":
             return self.const(op[1])
-        return self.place(op[1], bb, idx)
+        e = self.place(op[1], bb, idx)
+        if self._loops_made and not self._inprog:
+            e = self.resolve_loops(e)
+        return e
+
+    def resolve_loops(self, e, depth=0):
+        """Outside any loop computation, a loop marker LOOP(l, H) whose header value is known and does not
+        depend on the marker itself (loop-invariant variable) is replaced by that value."""
+        if depth > 3:
+            return e
+
+        def f(x):
+            if x[0] == "LOOP":
+                hv = self._entry.get((x[1], x[2]))
+                if hv is not None and not any(y[0] == "LOOP" and y[1] == x[1] and y[2] == x[2] for y in walk(hv)):
+                    return self.resolve_loops(hv, depth + 1)
+            return x
+        if not any(y[0] == "LOOP" for y in walk(e)):
+            return e
+        return map_expr(e, f)
 
     def place(self, pl, bb, idx):
         e = self.local_at(pl[0], bb, idx)
@@ -379,6 +419,7 @@ class VF:
         if key in self._entry:
             return self._entry[key]
         if key in self._inprog or self._stack2.get(key, 0) >= 2:
+            self._loops_made = True
             return ("LOOP", l, bb)
         if bb == 0:
             if 1 <= l <= self.body.argc:
@@ -454,6 +495,38 @@ class VF:
         self._mut[call.bb] = roots
         return roots
 
+    BITFLAG_MUT = {"remove": "AndNot", "sub_assign": "AndNot", "insert": "BitOr", "bitor_assign": "BitOr",
+                   "bitand_assign": "BitAnd", "bitxor_assign": "BitXor", "toggle": "BitXor"}
+
+    def bitflags_update(self, c, l, path, p, n):
+        """x.remove(F) / x |= F / x &= F on a bitflags value held in local l (sub-place `path`):
+        the new value as an explicit bit expression instead of an opaque update."""
+        op = self.BITFLAG_MUT.get(c.name)
+        adt = c.self_adt or (self.body.local_adt(c.args[0][1][0]) if c.args and c.args[0][0] != "k" else None)
+        st = self.facts.structs.get(adt) if adt else None
+        if op is None or st is None or [f["name"] for f in st["fields"]] != ["bits"] or len(c.args) != 2:
+            return None
+        if c.args[0][0] == "k":
+            return None
+        r = self.ref_root(c.args[0][1][0], 0)
+        if r is None or r[0] != l or r[1] != path:
+            return None
+        base = self.local_at(l, p, n)
+        old = base
+        for f in path:
+            old = field(old, f, int(f) if f.isdigit() else None)
+        other = self.operand(c.args[1], p, n)
+        ob, nb = field(old, "bits", 0), field(other, "bits", 0)
+        if op == "AndNot":
+            bits = fold_bin("BitAnd", ob, ("U", "Not", nb) if nb[0] != "K" else ("K", (~nb[1]) & ((1 << MASK.get(nb[2], 64)) - 1 if nb[2] in MASK else (1 << 64) - 1), nb[2], None)) \
+                if False else ("B", "AndNot", ob, nb)
+        else:
+            bits = fold_bin(op, ob, nb)
+        new = ("A", adt, adt.rsplit("::", 1)[-1], (("bits", bits),))
+        if not path:
+            return new
+        return ("WITH", base, tuple(path), new)
+
     def callee_mut_fields(self, c, l):
         """When local l is passed whole by &mut to a local callee: the set of first-level fields
         of it the callee (transitively, depth 2) may write; None if unknown."""
@@ -520,6 +593,9 @@ class VF:
                 return ("WITH", self.local_at(l, p, n), ("*",), ce)
             mr = self.mut_roots(c)
             if l in mr:
+                bf = self.bitflags_update(c, l, mr[l], p, n)
+                if bf is not None:
+                    return bf
                 if not mr[l]:
                     fs = self.callee_mut_fields(c, l)
                     if fs is not None:
@@ -887,6 +963,43 @@ def guard_str(c, lab, ty, values):
     return "%s==%s" % (c, lab)
 
 
+def _andparts(e):
+    """(x, F) for BitAnd(x, F) with F constant, else None."""
+    if e[0] == "B" and e[1] == "BitAnd":
+        a, b = e[2], e[3]
+        if a[0] == "K" and b[0] != "K":
+            a, b = b, a
+        if b[0] == "K":
+            return a, b
+    return None
+
+
+def as_has(e):
+    """Recognise the equivalent spellings of a flag test: returns (negated, x, F) for
+    (x & F) != 0, !( (x & F) == 0 ), (x & F) == F with single-bit F, and their negations."""
+    if e[0] == "U" and e[1] == "Not":
+        h = as_has(e[2])
+        if h is not None:
+            return (not h[0], h[1], h[2])
+        return None
+    if e[0] != "B" or e[1] not in ("Ne", "Gt", "Eq"):
+        return None
+    a, b = e[2], e[3]
+    for (p, q) in ((a, b), (b, a)):
+        ap = _andparts(p)
+        if ap is None or q[0] != "K":
+            continue
+        x, f = ap
+        if q[1] == 0:
+            return (e[1] == "Eq", x, f)
+        if q[1] == f[1] and f[1] != 0 and (f[1] & (f[1] - 1)) == 0:
+            if e[1] == "Eq":
+                return (False, x, f)
+            if e[1] == "Ne":
+                return (True, x, f)
+    return None
+
+
 def shortname(k):
     """Last two path segments of a function key, generics stripped."""
     if k.startswith("<") and ">::" in k:
@@ -949,6 +1062,10 @@ def shortty(t):
 def render(e, body=None, roots=None, depth=0, short=False, vfx=None):
     """Canonical text. roots: list of (expr, name) replaced by name when equal.
     short: drop module paths. vfx: VF instance used to print PHI arms with their guards."""
+    if depth == 0 and NOUPD[0]:
+        e = strip_upd(e)
+        if roots:
+            roots = list(roots) + [(strip_upd(r), n) for (r, n) in roots]
     if roots:
         for (r, n) in roots:
             if e == r:
@@ -1029,11 +1146,12 @@ def render(e, body=None, roots=None, depth=0, short=False, vfx=None):
         return "%s.%s" % (R(b), e[2])
     if t == "V":
         return "%s@%s" % (R(e[1]), e[2])
-    if t == "B" and e[1] in ("Ne", "Gt") and e[3][0] == "K" and e[3][1] == 0 and e[2][0] == "B" and e[2][1] == "BitAnd":
-        x, f = e[2][2], e[2][3]
-        if x[0] == "K" and f[0] != "K":
-            x, f = f, x
-        return "has(%s, %s)" % (R(x), R(f))
+    h = as_has(e)
+    if h is not None:
+        neg, x, f = h
+        return "%shas(%s, %s)" % ("!" if neg else "", R(x), R(f))
+    if t == "B" and e[1] == "AndNot":
+        return "%s - %s" % (R(e[2]), R(e[3]))
     if t == "B":
         a, b = R(e[2]), R(e[3])
         if e[1] in ("BitOr", "BitAnd", "BitXor", "Add", "Mul", "Eq", "Ne") and b < a:
